@@ -96,7 +96,9 @@ def strategy_(draw, tier):
                          payload=payload, old=expect_old))
     orphans = [list(draw(st.sampled_from(tds))) for _ in range(draw(st.integers(0, 2)))]
     return {"layout": tw.layout, "uid": tw.uid, "days": days, "now": now, "via": via, "usec": usec,
-            "ents": ents, "orphans": orphans, "verbose": draw(st.booleans())}
+            "ents": ents, "orphans": orphans, "verbose": draw(st.booleans()),
+            # the readers take the volume list from $TRASH_VOLUMES when it is set (empty items allowed)
+            "tv": draw(st.sampled_from([None, None, "plain", "empties"]))}
 
 
 def strategy(tier):
@@ -133,6 +135,9 @@ def run_case(case):
     nowclock = now + (".%06d" % case["usec"] if case.get("usec") else "")
     spec = tw.spec(cwd="/", now=nowclock if case["via"] == "clock" else "2001-01-01T00:00:00")
     env = {"TRASH_DATE": now} if case["via"] == "TRASH_DATE" else {}
+    if case.get("tv"):
+        allv = ["/"] + list(spec["vols"])
+        env["TRASH_VOLUMES"] = ":".join(allv) if case["tv"] == "plain" else "::" + "::".join(allv) + ":"
     sandbox.build_world(spec)
     before = sandbox.snapshot()
     args = (["-v"] if case["verbose"] else []) + ([str(case["days"])] if case["days"] is not None else [])
